@@ -20,7 +20,85 @@ pub fn run(ctx: &mut Ctx) {
     let n = ctx.budget(24_000, 600_000);
     ctx.phase("params", n, |ctx, k| {
         let big = k % 16 == 0;
-        let full = gen::full_params(&mut ctx.rng, big);
+        let mut full = gen::full_params(&mut ctx.rng, big);
+        if k % 16 == 1 {
+            // one field with a length on a compact-size boundary
+            let l = *gen::pick(&mut ctx.rng, &[252usize, 253, 254, 255, 256, 65_535, 65_536]);
+            let bytes = gen::bytes(&mut ctx.rng, l);
+            match ctx.rng.gen_range(0..4) {
+                0 => full.signblockscript = elements::Script::from(bytes),
+                1 => full.fedpeg_program = elements::bitcoin::ScriptBuf::from_bytes(bytes),
+                2 => full.fedpegscript = bytes,
+                _ => {
+                    if full.extension_space.is_empty() {
+                        full.extension_space.push(bytes);
+                    } else {
+                        let i = ctx.rng.gen_range(0..full.extension_space.len());
+                        full.extension_space[i] = bytes;
+                    }
+                }
+            }
+            ctx.count("boundary-length-params");
+        }
+        let full = full;
+        // history: the neighbour of the previous parameter set (same lengths and entry count, one
+        // byte different) is rooted right after it on the same thread
+        {
+            let mut nb = full.clone();
+            let mut sites: Vec<u8> = Vec::new();
+            if !nb.signblockscript.is_empty() {
+                sites.push(0);
+            }
+            if !nb.fedpeg_program.is_empty() {
+                sites.push(1);
+            }
+            if !nb.fedpegscript.is_empty() {
+                sites.push(2);
+            }
+            if nb.extension_space.iter().any(|e| !e.is_empty()) {
+                sites.push(3);
+            }
+            sites.push(4);
+            // root the original first (fills whatever state the library keeps)
+            let _ = Params::Full(full.clone()).calculate_root();
+            let _ = full.clone().into_compact().calculate_root();
+            let site = *gen::pick(&mut ctx.rng, &sites);
+            let flip = |v: &mut Vec<u8>, r: &mut gen::Rg| {
+                let i = r.gen_range(0..v.len());
+                v[i] ^= 1 << r.gen_range(0..8);
+            };
+            match site {
+                0 => {
+                    let mut v = nb.signblockscript.to_bytes();
+                    flip(&mut v, &mut ctx.rng);
+                    nb.signblockscript = elements::Script::from(v);
+                }
+                1 => {
+                    let mut v = nb.fedpeg_program.to_bytes();
+                    flip(&mut v, &mut ctx.rng);
+                    nb.fedpeg_program = elements::bitcoin::ScriptBuf::from_bytes(v);
+                }
+                2 => flip(&mut nb.fedpegscript, &mut ctx.rng),
+                3 => {
+                    let idx: Vec<usize> = (0..nb.extension_space.len()).filter(|i| !nb.extension_space[*i].is_empty()).collect();
+                    let i = *gen::pick(&mut ctx.rng, &idx);
+                    flip(&mut nb.extension_space[i], &mut ctx.rng);
+                }
+                _ => nb.signblock_witness_limit ^= 1 << ctx.rng.gen_range(0..32),
+            }
+            ctx.eval();
+            let want_nb = ref_root(&ser::rparams(&Params::Full(nb.clone())));
+            let dn = || json!({"first": format!("{:?}", full).chars().take(400).collect::<String>(), "then": format!("{:?}", nb).chars().take(400).collect::<String>(), "changed": site});
+            let site_name = ["signblockscript", "fedpeg_program", "fedpegscript", "extension-entry", "witness-limit"][site as usize];
+            ctx.check(Params::Full(nb.clone()).calculate_root().to_byte_array() == want_nb, &format!("params-full-root!=reference/after-neighbour/{}", site_name), dn);
+            ctx.check(nb.calculate_root().to_byte_array() == want_nb, &format!("full-root!=reference/after-neighbour/{}", site_name), dn);
+            ctx.check(nb.clone().into_compact().calculate_root().to_byte_array() == want_nb, &format!("compact-root!=full-root/after-neighbour/{}", site_name), dn);
+            let mut h = gen::header(&mut ctx.rng);
+            h.ext = elements::BlockExtData::Dynafed { current: Params::Full(full.clone()), proposed: Params::Full(nb.clone()), signblock_witness: vec![] };
+            let want_h = merkle::root(&[ref_root(&ser::rparams(&Params::Full(full.clone()))), want_nb]);
+            ctx.check(h.calculate_dynafed_params_root().map(|r| r.to_byte_array()) == Some(want_h), &format!("header-root!=reference/current-and-neighbour/{}", site_name), dn);
+            ctx.count(&format!("neighbour/{}", site_name));
+        }
         ctx.eval();
         let rfull = ser::rparams(&Params::Full(full.clone()));
         let want = ref_root(&rfull);
